@@ -243,6 +243,222 @@ theorem C10_each_readable (a : Attrs) (ts : List Tree) (t : Tree) (h : rootsWF [
   obtain ⟨hl, hw⟩ := key ts [] h ht
   exact C08_select (.group a (encodeRoots ts)) t [] .below (.node t []) hl hw (by simp [readSpec])
 
+/-! ## Lists through the public entry point -/
+
+theorem classify_a : classifyMode (effectiveMode "a" none) = some .append := by decide
+
+theorem alookup_aset_same' {β : Type} (k : String) (v : β) (l : List (String × β)) : alookup k (aset k v l) = some v := by
+  unfold aset
+  cases h : alookup k l with
+  | none => simp only []; rw [alookup_append, h]; simp [alookup]
+  | some w => simp only []; exact alookup_areplace_same k v l (by simp [h])
+
+theorem areplace_areplace {β : Type} (k : String) (v w : β) : ∀ (l : List (String × β)),
+    areplace k v (areplace k w l) = areplace k v l
+  | [] => rfl
+  | (k', x) :: r => by
+    simp only [areplace]
+    by_cases hk : k' = k
+    · simp [hk, areplace]
+    · simp [hk, areplace, areplace_areplace k v w r]
+
+theorem areplace_append_new {β : Type} (k : String) (v w : β) : ∀ (l : List (String × β)), alookup k l = none →
+    areplace k v (l ++ [(k, w)]) = l ++ [(k, v)]
+  | [], _ => by simp [areplace]
+  | (k', x) :: r, h => by
+    simp only [alookup] at h
+    split at h
+    · cases h
+    · next hne => simp [areplace, hne, areplace_append_new k v w r h]
+
+theorem aset_aset {β : Type} (k : String) (v w : β) (l : List (String × β)) : aset k v (aset k w l) = aset k v l := by
+  have h1 := alookup_aset_same' k w l
+  unfold aset at h1 ⊢
+  cases h : alookup k l with
+  | none =>
+    simp only [h] at h1 ⊢
+    simp only [h1]
+    exact areplace_append_new k v w l h
+  | some x =>
+    simp only [h] at h1 ⊢
+    simp only [h1]
+    exact areplace_areplace k v w l
+
+theorem fsLookup_fsSet (fs : FS) (p : String) (x : FileState) : fsLookup (fsSet fs p x) p = some x :=
+  alookup_aset_same' p x fs
+
+theorem fsSet_fsSet (fs : FS) (p : String) (x y : FileState) : fsSet (fsSet fs p x) p y = fsSet fs p y := aset_aset p y x fs
+
+theorem areplace_self {β : Type} (k : String) (v : β) : ∀ (l : List (String × β)), alookup k l = some v → areplace k v l = l
+  | [], h => by simp [alookup] at h
+  | (k', x) :: r, h => by
+    simp only [alookup] at h
+    simp only [areplace]
+    split at h
+    · next e => cases h; simp [e]
+    · next hne => simp [hne, areplace_self k v r h]
+
+theorem rootsWF_append : ∀ (done : List Tree) (tk : List String) (t : Tree), rootsWF tk done = true →
+    t.rootedWF CT DT = true → t.name ∉ tk → t.name ∉ done.map Tree.name → rootsWF tk (done ++ [t]) = true
+  | [], tk, t, _, hw, h1, _ => by
+    simp only [List.nil_append, rootsWF, Bool.and_eq_true, Bool.not_eq_true', List.contains_eq_mem, decide_eq_false_iff_not]
+    exact ⟨⟨h1, hw⟩, trivial⟩
+  | x :: xs, tk, t, h, hw, h1, h2 => by
+    simp only [rootsWF, Bool.and_eq_true, Bool.not_eq_true', List.contains_eq_mem, decide_eq_false_iff_not] at h
+    simp only [List.map_cons, List.mem_cons, not_or] at h2
+    simp only [List.cons_append, rootsWF, Bool.and_eq_true, Bool.not_eq_true', List.contains_eq_mem, decide_eq_false_iff_not]
+    refine ⟨h.1, rootsWF_append xs (x.name :: tk) t h.2 hw ?_ h2.2⟩
+    simp only [List.mem_cons, not_or]
+    exact ⟨h2.1, h1⟩
+
+/-- the first tree of a list creates the file (mode 'a' on a path that does not exist) -/
+theorem save_first (sess : Session) (uuid path : String) (fs : FS) (t : Tree) (hfree : fsLookup fs path = none)
+    (h : t.rootedWF CT DT = true) :
+    save sess uuid fs path (.rooted t []) "a" .yes none
+      = .ok (fsSet fs path (.h5 (.group (headerAttrs sess uuid) (encodeRoots [t])))) := by
+  simp only [save, classify_a, saveClass, hfree, Src.resolve, saveNewFile, writeFromRoot_whole _ t h, encodeRoots,
+    bind, Except.bind, pure, Except.pure]
+
+/-- every further tree with a new root name is appended as one more top-level group -/
+theorem save_next (sess : Session) (uuid u0 path : String) (fs : FS) (done : List Tree) (t : Tree) (taken : List String)
+    (hdone : rootsWF [] done = true) (hne : done ≠ []) (ht : rootsWF taken [t] = true)
+    (htk : ∀ n, n ∈ done.map Tree.name → n ∈ taken)
+    (hfile : fsLookup fs path = some (.h5 (.group (headerAttrs sess u0) (encodeRoots done)))) :
+    save sess uuid fs path (.rooted t []) "a" .yes none
+      = .ok (fsSet fs path (.h5 (.group (headerAttrs sess u0) (encodeRoots (done ++ [t]))))) := by
+  have hrg := rootGroups_encodeRoots (headerAttrs sess u0) done [] hdone
+  have h1 : alookup "emd_group_type" (headerAttrs sess u0) = some (.str "file") := by simp [headerAttrs, alookup]
+  have h2 : alookup "version_major" (headerAttrs sess u0) = some (.int 1) := by simp [headerAttrs, alookup]
+  have h3 : alookup "version_minor" (headerAttrs sess u0) = some (.int 0) := by simp [headerAttrs, alookup]
+  have hemd : isEMDFile (.group (headerAttrs sess u0) (encodeRoots done)) = true := by
+    simp only [isEMDFile, hrg, Obj.attrs, h1, h2, h3, beq_self_eq_true, Bool.true_and, Bool.not_eq_true',
+      List.isEmpty_eq_false_iff, ne_eq, List.map_eq_nil_iff]
+    exact hne
+  have happ := C10_append_all (headerAttrs sess u0) false [t] done taken ht htk hdone
+  simp only [List.foldlM, bind, Except.bind, pure, Except.pure] at happ
+  have happ' : appendInto DT (.group (headerAttrs sess u0) (encodeRoots done)) t [] false .yes none
+      = .ok (.group (headerAttrs sess u0) (encodeRoots (done ++ [t]))) := by
+    cases hx : appendInto DT (.group (headerAttrs sess u0) (encodeRoots done)) t [] false .yes none with
+    | error e => simp [hx] at happ
+    | ok v => simp only [hx] at happ; exact happ
+  simp only [save, classify_a, saveClass, hfile, Src.resolve, saveAppend, hemd, happ', bind, Except.bind, pure, Except.pure,
+    Bool.not_true, Bool.false_eq_true, if_false]
+
+/-- the loop over the whole roots of a list, once the file exists -/
+theorem save_rest (sess : Session) (uuid u0 path : String) : ∀ (ts done : List Tree) (taken : List String) (fs : FS),
+    rootsWF [] done = true → done ≠ [] → rootsWF taken ts = true → (∀ n, n ∈ done.map Tree.name → n ∈ taken) →
+    fsLookup fs path = some (.h5 (.group (headerAttrs sess u0) (encodeRoots done))) →
+    ts.foldlM (fun fs r => save sess uuid fs path (.rooted r []) "a" .yes none) fs
+      = .ok (fsSet fs path (.h5 (.group (headerAttrs sess u0) (encodeRoots (done ++ ts)))))
+  | [], done, _, fs, _, _, _, _, hfile => by
+    simp only [List.foldlM, pure, Except.pure, List.append_nil]
+    -- nothing to do: the file is what it is
+    congr 1
+    unfold fsLookup at hfile
+    unfold fsSet aset
+    rw [hfile]
+    exact (areplace_self path _ fs hfile).symm
+  | t :: ts, done, taken, fs, hdone, hne, hts, htk, hfile => by
+    simp only [rootsWF, Bool.and_eq_true, Bool.not_eq_true', List.contains_eq_mem, decide_eq_false_iff_not] at hts
+    obtain ⟨⟨hfresh, htw⟩, hrest⟩ := hts
+    have ht1 : rootsWF taken [t] = true := by
+      simp only [rootsWF, Bool.and_eq_true, Bool.not_eq_true', List.contains_eq_mem, decide_eq_false_iff_not]
+      exact ⟨⟨hfresh, htw⟩, trivial⟩
+    have h1 := save_next sess uuid u0 path fs done t taken hdone hne ht1 htk hfile
+    have hdone' : rootsWF [] (done ++ [t]) = true := rootsWF_append done [] t hdone htw (by simp) (fun hm => hfresh (htk _ hm))
+    have ih := save_rest sess uuid u0 path ts (done ++ [t]) (t.name :: taken) (fsSet fs path (.h5 (.group (headerAttrs sess u0) (encodeRoots (done ++ [t])))))
+      hdone' (by simp) hrest (fun n hn => by
+        simp only [List.map_append, List.mem_append, List.map_cons, List.map_nil, List.mem_singleton] at hn
+        cases hn with
+        | inl e => exact List.mem_cons_of_mem _ (htk n e)
+        | inr e => simp [e]) (fsLookup_fsSet _ _ _)
+    simp only [List.foldlM, h1, bind, Except.bind]
+    rw [ih, fsSet_fsSet, List.append_assoc]
+    rfl
+
+/-- list items that are not nodes of other trees: Roots, unrooted nodes, arrays, dicts -/
+def plainItem : Item → Bool
+  | .rooted _ _ _ => false
+  | .other => false
+  | _ => true
+
+theorem rootedRoots_plain : ∀ (items : List Item) (acc : List (String × Nat × Tree)), items.all plainItem = true →
+    items.foldlM rootedStep acc = some acc
+  | [], acc, _ => rfl
+  | x :: xs, acc, h => by
+    simp only [List.all_cons, Bool.and_eq_true] at h
+    cases x with
+    | rooted a b c => simp [plainItem] at h
+    | root t => simp only [List.foldlM, rootedStep]; exact rootedRoots_plain xs acc h.2
+    | unrooted n => simp only [List.foldlM, rootedStep]; exact rootedRoots_plain xs acc h.2
+    | array b => simp only [List.foldlM, rootedStep]; exact rootedRoots_plain xs acc h.2
+    | dict e => simp only [List.foldlM, rootedStep]; exact rootedRoots_plain xs acc h.2
+    | other => simp only [List.foldlM, rootedStep]; exact rootedRoots_plain xs acc h.2
+
+theorem no_rooted_plain : ∀ (items : List Item), items.all plainItem = true →
+    items.filterMap Item.asRooted = []
+  | [], _ => rfl
+  | x :: xs, h => by
+    simp only [List.all_cons, Bool.and_eq_true] at h
+    cases x with
+    | rooted a b c => simp [plainItem] at h
+    | root t => simp only [List.filterMap_cons, Item.asRooted]; exact no_rooted_plain xs h.2
+    | unrooted n => simp only [List.filterMap_cons, Item.asRooted]; exact no_rooted_plain xs h.2
+    | array b => simp only [List.filterMap_cons, Item.asRooted]; exact no_rooted_plain xs h.2
+    | dict e => simp only [List.filterMap_cons, Item.asRooted]; exact no_rooted_plain xs h.2
+    | other => simp only [List.filterMap_cons, Item.asRooted]; exact no_rooted_plain xs h.2
+
+theorem no_other_plain : ∀ (items : List Item), items.all plainItem = true →
+    items.any Item.isOther = false
+  | [], _ => rfl
+  | x :: xs, h => by
+    simp only [List.all_cons, Bool.and_eq_true] at h
+    cases x with
+    | other => simp [plainItem] at h
+    | rooted a b c => simp [plainItem] at h
+    | root t => simp only [List.any_cons, Item.isOther, Bool.false_or]; exact no_other_plain xs h.2
+    | unrooted n => simp only [List.any_cons, Item.isOther, Bool.false_or]; exact no_other_plain xs h.2
+    | array b => simp only [List.any_cons, Item.isOther, Bool.false_or]; exact no_other_plain xs h.2
+    | dict e => simp only [List.any_cons, Item.isOther, Bool.false_or]; exact no_other_plain xs h.2
+
+/-- C10, lists through `emdfile.save(path, [...])`: a list of Roots, unrooted nodes, arrays and dicts saved to a fresh
+    path produces a file with the header and exactly one top-level tree per root — the shared root of the unrooted items
+    first, then the given Roots whole, each the encoding of its source (so each is individually readable and equal to it,
+    `C10_each_readable`, and a read without a path reports exactly these names, `C10_read_list`) -/
+theorem C10_save_list (sess : Session) (uuid path : String) (fs : FS) (items : List Item)
+    (hplain : items.all plainItem = true) (hfree : fsLookup fs path = none)
+    (hwf : rootsWF [] (listRoots items) = true) (hne : listRoots items ≠ []) :
+    saveInput sess uuid fs path (.list items) "w" .yes none
+      = .ok (fsSet fs path (.h5 (.group (headerAttrs sess uuid) (encodeRoots (listRoots items))))) := by
+  have hfold : ∀ (roots : List Tree), rootsWF [] roots = true → roots ≠ [] →
+      roots.foldlM (fun fs r => save sess uuid fs path (.rooted r []) "a" .yes none) fs
+        = .ok (fsSet fs path (.h5 (.group (headerAttrs sess uuid) (encodeRoots roots)))) := by
+    intro roots hw hn
+    cases roots with
+    | nil => exact absurd rfl hn
+    | cons t ts =>
+      simp only [rootsWF, Bool.and_eq_true] at hw
+      have h1 := save_first sess uuid path fs t hfree hw.1.2
+      have hd : rootsWF [] [t] = true := by
+        simp only [rootsWF, Bool.and_eq_true]; exact ⟨⟨by simp, hw.1.2⟩, trivial⟩
+      have h2 := save_rest sess uuid uuid path ts [t] [t.name] _ hd (by simp) hw.2 (by simp) (fsLookup_fsSet fs path _)
+      simp only [List.foldlM, h1, bind, Except.bind]
+      rw [h2, fsSet_fsSet]
+      rfl
+  have hf := hfold (listRoots items) hwf hne
+  simp only [saveInput, classify_w, hfree, Option.isSome_none, Bool.and_false, Bool.false_eq_true, if_false, saveList,
+    no_other_plain items hplain, rootedRoots, rootedRoots_plain items [] hplain, no_rooted_plain items hplain, List.foldlM,
+    bind, Except.bind, pure, Except.pure, hf]
+
+-- non-vacuity of `C10_save_list`: a mixed list (two Roots, an unrooted node, an array, a dict) meets its hypotheses;
+-- the file then holds root_savedlist (node, array_0, dictionary_0), then the two given trees
+def exItems : List Item :=
+  [.root exF, .array [("data", .dataset [("units", .str "")] (.tok "t"))], .unrooted ⟨"loose", "Node", "node", []⟩,
+   .dict (.group [("emd_group_type", .str "metadata"), ("python_class", .str "Metadata")] []), .root exTree]
+example : exItems.all plainItem = true ∧ rootsWF [] (listRoots exItems) = true ∧
+    (listRoots exItems).map Tree.name = ["root_savedlist", "r", "wurzel é"] ∧
+    ((listRoots exItems).headD exF).kids.map Tree.name = ["loose", "array_0"] := by decide
+
 -- non-vacuity
 example : rootsWF [] [exF, exTree] = true := by decide
 
